@@ -58,7 +58,7 @@ def r1(ctx, rep):
     rep.instance(R1, ok=ok, nontrivial='orderitems-identity')
     # constructors, comparison operators, hash and ident folded (sa.lexfold) -- replaces the former text-fragment rules
     from .. import lexfold
-    for fold in (lexfold.fold_constructors, lexfold.fold_compare_ops, lexfold.fold_argument):
+    for fold in (lexfold.fold_constructors, lexfold.fold_compare_ops, lexfold.fold_eq_overrides, lexfold.fold_argument):
         res, cons = fold(m)
         rep.consult(*cons)
         seen = set()
